@@ -12,6 +12,8 @@ whose ambient is the default says the environment is irrelevant to it):
              (ERROR, WARNING, INFO, DEBUG -- user_interface.LEVELS)
   tz         None (the sandbox zone, UTC) or a TZ value for the process: an
              IANA name, or a POSIX rule string that needs no zone files
+  path       None, or a flavour of the directory name the dataset and its
+             input files live in (a blank, a non-ASCII letter)
 
 The generator consults `CURRENT` (set just before the case itself is drawn,
 inside the same composite, so it is a pure function of the draw sequence) to
@@ -29,12 +31,12 @@ RULE_SUFFIX = (
     ' Every case drawn by a strategy (enumerated parts run under the default) also carries an ambient record drawn with it: 0-3 '
     '-v flags on every sub-command (root logger level for direct calls) and a '
     'process TZ (none, Europe/Berlin, a POSIX rule string, America/New_York, '
-    'Asia/Jakarta, WIB-7); neither may change any result (labels ambient:*). '
+    'Asia/Jakarta, WIB-7) and the flavour of the scratch directory name (plain, with a blank, with a non-ASCII letter); none may change any result (labels ambient:*). '
     'One more shard of every strategy-driven part (two in the thorough tier) '
     'runs in an interpreter started with -O (label interpreter:-O).'
 )
 LEVELS = [logging.ERROR, logging.WARNING, logging.INFO, logging.DEBUG]
-DEFAULT = {'verbosity': 0, 'tz': None}
+DEFAULT = {'verbosity': 0, 'tz': None, 'path': None}
 CURRENT = dict(DEFAULT)     # during generation: the ambient being drawn for
 ACTIVE = dict(DEFAULT)      # during a check: the ambient in force
 
@@ -54,6 +56,8 @@ def strategy():
     return st.fixed_dictionaries({
         'verbosity': st.sampled_from([0, 0, 0, 1, 2, 3, 3]),
         'tz': st.sampled_from(ZONES),
+        # the directory the dataset and its input files live in
+        'path': st.sampled_from([None, None, None, 'two words', 'm\u00fcnster']),
     })
 
 
@@ -107,6 +111,13 @@ def applied(case):
             else:
                 os.environ['TZ'] = saved_tz
             time.tzset()
+
+
+def scratch_prefix():
+    """Prefix of the scratch directory of the active case (a blank or a
+    non-ASCII letter in the path of the dataset and its input files)."""
+    flavour = ACTIVE.get('path')
+    return 'vfw-{}-'.format(flavour) if flavour else 'vfw-'
 
 
 def cli_flags():
